@@ -15,7 +15,7 @@ theorem kd_tree_sk (mk atc : Bytes) (h b : Nat) (iv : Bytes) :
     by_cases hg : b ^ h ≤ 65535 <;> by_cases hb : b = 0 <;>
     simp [h1, h2, h3, hg, hb, throw, throwThe, MonadExceptOf.throw]
   all_goals (repeat (first | rfl | split))
-  all_goals simp_all
+  all_goals first | (simp_all; done) | slice_forms
 
 /-- **C05 about the translated source**: accepted parameters give the Annex A1.3 tree key, and exactly the
 parameters with `b^H > 65535` are accepted. -/
